@@ -2,6 +2,7 @@ mod codec;
 mod effects;
 mod expr;
 mod treemath;
+mod window;
 
 fn main() {
     let a: Vec<String> = std::env::args().collect();
@@ -13,6 +14,7 @@ fn main() {
         "treemath" => treemath::run(&a[2], &a[3]),
         "codec" => codec::run(&a[2], &a[3]),
         "effects" => effects::run(&a[2], &a[3]),
+        "window" => window::run(&a[2], &a[3]),
         _ => std::process::exit(2),
     }
 }
